@@ -9,7 +9,7 @@
 (* their class and their keys in the order of iteration (presync: the order in which the          *)
 (* decorated function received its keyword arguments) and are compared as they are: nothing is    *)
 (* brought into a canonical key order.                                                            *)
-EXTENDS SyncLaw, Batch
+EXTENDS SyncSess, Batch
 
 (* api = "history": one line is a whole history of calls / derivations on ONE presync-decorated   *)
 (* function object (o.dec = its decoration, o.hist = the steps, o.out.steps[n] = what the decorated *)
@@ -31,28 +31,64 @@ HistVerdict(o) ==
              ELSE IF \E k \in calls : k < n /\ ExplainedUnder(o, n, Effective(InForce(o.dec, o.hist, k), o.hist[n].ov))
              THEN "presync_policy_leaked"
              ELSE "presync_history"
-Verdict(o) ==
-    IF \E i \in 1..Len(TsLeaves(o.tree)) : ~WellFormed(TsLeaves(o.tree)[i]) THEN "malformed_observation"
-    ELSE IF o.after # o.tree THEN "operand_changed"
-    ELSE IF o.out.kind = "exc" THEN "raised"
-    ELSE CASE o.api = "index" ->
-                IF o.out.v.k = JointOutcome(o.tree, o.pol).k /\ o.out.v = JointOutcome(o.tree, o.pol) THEN "" ELSE "joint_index"
-           [] o.api \in {"sync", "reindex"} ->
-                LET want == SyncOutcomesX(o.tree, o.pol, o.m, CP(o))
-                    got  == o.out.v
+\* one public call on the collection `tree` with its encoded outcome `out`: "" or the clause that fails
+CallVerdict(api, tree, pol, m, cols, out) ==
+    IF out.kind = "exc" THEN "raised"
+    ELSE CASE api = "index" ->
+                IF out.v.k = JointOutcome(tree, pol).k /\ out.v = JointOutcome(tree, pol) THEN "" ELSE "joint_index"
+           [] api \in {"sync", "reindex"} ->
+                LET cp   == IF api = "reindex" THEN NoCols ELSE cols
+                    want == SyncOutcomesX(tree, pol, m, cp)
+                    got  == out.v
                 IN  IF \E w \in want : ShapeOnly(w) = ShapeOnly(got) /\ w = got THEN ""
-                    ELSE WhyNotX(SyncX(o.tree, o.pol, o.m, CP(o), "row"), got)
-           [] o.api = "presync" ->
-                LET want == PresyncOutcomesX(o.tree, o.pol, o.m, o.cols)
-                    got  == {o.out.calls[i] : i \in 1..Len(o.out.calls)}
+                    ELSE WhyNotX(SyncX(tree, pol, m, cp, "row"), got)
+           [] api = "presync" ->
+                LET want == PresyncOutcomesX(tree, pol, m, cols)
+                    got  == {out.calls[i] : i \in 1..Len(out.calls)}
                 IN  IF \E S \in want : Explains(S, got) THEN ""
-                    ELSE IF Cardinality(got) = 1 /\ MultiLeaves(o.tree) = <<>>
-                         THEN "presync_" \o WhyNotX(Collapse(SyncX(o.tree, o.pol, o.m, NoCols, "row")), Collapse(CHOOSE g \in got : TRUE))
-                         ELSE IF \A g \in got : ShapeOnly(Reorder(g, o.tree)) = ShapeOnly(o.tree) /\ ShapeOnly(g) # ShapeOnly(o.tree)
+                    ELSE IF Cardinality(got) = 1 /\ MultiLeaves(tree) = <<>>
+                         THEN "presync_" \o WhyNotX(Collapse(SyncX(tree, pol, m, NoCols, "row")), Collapse(CHOOSE g \in got : TRUE))
+                         ELSE IF \A g \in got : ShapeOnly(Reorder(g, tree)) = ShapeOnly(tree) /\ ShapeOnly(g) # ShapeOnly(tree)
                          THEN "presync_dict_order"
                          ELSE "presync_calls"
-           [] o.api = "history" -> HistVerdict(o)
            [] OTHER -> "unknown_api"
+
+(* api = "session": one line is a whole session on ONE heap of caller-owned objects (SyncSess.tla): o.heap = the     *)
+(* initial heap (with its realisation `share`), o.steps = the steps, o.out.steps[n] = [out |-> the encoded outcome    *)
+(* of step n (calls only), heap |-> the caller's objects as observed after step n].  The heap the law expects after    *)
+(* step n is HeapAfter(.., n): calls leave it as it is, the caller's edits act on it.  A call is judged against the    *)
+(* law on the heap of that moment.                                                                                  *)
+SessHeap0(o) == [ops |-> o.heap.ops, cont |-> o.heap.cont, meth |-> o.heap.meth]
+SessStepVerdict(o, n) ==
+    LET st     == o.steps[n]
+        before == HeapAfter(SessHeap0(o), o.steps, n - 1)
+        after  == HeapStep(before, st)
+        seen   == o.out.steps[n].heap
+    IN  IF ~StepEnabled(before, st) THEN "malformed_observation"
+        ELSE IF st.op = "call" THEN
+            IF seen.meth # after.meth THEN "method_argument_changed"
+            ELSE IF seen.cont # after.cont THEN "container_changed"
+            ELSE IF seen.ops # after.ops THEN "operand_changed"
+            ELSE LET v == CallVerdict(st.api, TreeOf(before), SessPol(before, st), MethOf(before.meth), st.cols, o.out.steps[n].out) IN
+                 IF v = "" THEN ""
+                 \* would the heap as it was before an earlier step, or the method object as it was then, explain the outcome?
+                 ELSE IF \E k \in 0..(n - 2) : LET old == HeapAfter(SessHeap0(o), o.steps, k) IN
+                             old # before /\ CallVerdict(st.api, TreeOf(old), SessPol(old, st), MethOf(old.meth), st.cols, o.out.steps[n].out) = ""
+                      THEN "session_memory"
+                 ELSE "session_" \o v
+        ELSE IF seen # after THEN (IF st.op = "resedit" THEN "result_aliases_argument" ELSE "malformed_observation")
+        ELSE ""
+SessVerdict(o) ==
+    IF \E i \in 1..Len(o.heap.ops) : ~WellFormed(o.heap.ops[i]) THEN "malformed_observation"
+    ELSE LET bad == {n \in 1..Len(o.steps) : SessStepVerdict(o, n) # ""} IN
+         IF bad = {} THEN "" ELSE SessStepVerdict(o, CHOOSE x \in bad : \A y \in bad : x <= y)
+
+Verdict(o) ==
+    IF o.api = "session" THEN SessVerdict(o)
+    ELSE IF \E i \in 1..Len(TsLeaves(o.tree)) : ~WellFormed(TsLeaves(o.tree)[i]) THEN "malformed_observation"
+    ELSE IF o.after # o.tree THEN "operand_changed"
+    ELSE IF o.api = "history" THEN HistVerdict(o)
+    ELSE CallVerdict(o.api, o.tree, o.pol, o.m, CP(o), o.out)
 
 Init == BatchInit
 Next == BatchNext(Verdict)
